@@ -30,6 +30,8 @@ pub async fn verify_data_payment(
 ) -> Result<Amount, error::Error> {
     let provider = http_provider(network.rpc_url().clone());
     let payment_vault = PaymentVaultHandler::new(*network.data_payments_address(), provider);
+    #[cfg(maidsafe_safe_network_verif)]
+    let payment_vault = crate::verif::VaultShim::new(payment_vault);
 
     let mut amount = Amount::ZERO;
 
